@@ -113,7 +113,7 @@ uptr_DetectorGroup ext__make_unique__uptr_DetectorGroup(DetectorGroup dg) { g_dg
 uptr_DetectorGroup vec_uptr_DetectorGroup__elem(uint64_t vid, uint64_t i) { return (uptr_DetectorGroup)(300000 + i); }
 uptr_BasePlugin vec_uptr_BasePlugin__elem(uint64_t vid, uint64_t i) { return (uptr_BasePlugin)(100000 + i); }
 PluginRegistry getPluginRegistry(void) { return (PluginRegistry)1; }
-BasePlugin PluginRegistry__create__str_t(PluginRegistry r, str_t name) { return (BasePlugin)fresh_handle(); }
+BasePlugin PluginRegistry__create(PluginRegistry r, str_t name) { return (BasePlugin)fresh_handle(); }
 str_t BasePlugin__getName(BasePlugin p) { return (str_t)p; }
 void BasePlugin__setName(BasePlugin p, str_t n) { }
 umap_str_t_str_t g_args_of; str_t g_emplaced_key, g_emplaced_val; _Bool g_emplace_only_if_absent; uint64_t g_try_emplaces, g_forced_sets;
